@@ -1,12 +1,12 @@
-\* exhaustive (quick): log of up to 3 entries, no crash, one spurious heartbeat timeout / deposed healthy leader
-\* (stale leader pointers, proxy chains to a deposed leader)
+\* exhaustive (quick): no crash, two spurious events (a follower loses a healthy leader, a candidate deposes a healthy
+\* leader: stale leader pointers, proxy chains that end at a deposed leader), one proxy hop
 SPECIFICATION Spec
 CONSTANTS
     Nodes = {1, 2, 3}
-    MaxLog = 3
+    MaxLog = 2
     MaxCrash = 0
-    MaxSpurious = 1
-    MaxHops = 2
+    MaxSpurious = 2
+    MaxHops = 1
     FixedLeaderLag = TRUE
 INVARIANTS TypeOK NeverGoneWhileAlive GoneOnlyIfDeleted NotYetSeenIsRetryable ServedOnlyByKnowing LookupSound EffectOnlyByLeader
 CHECK_DEADLOCK FALSE
